@@ -702,4 +702,6 @@ pub fn run(run: &Run) {
     self_test(run);
     part_b(run);
     part_a(run);
+    // thorough: the same quick workload once more under the AddressSanitizer build (memory errors in the library or its dependencies)
+    if !run.quick() { crate::lanes::asan_rerun(run); }
 }
